@@ -429,7 +429,7 @@ def run_property(prop, tier):
         for k, n in r['discards'].items():
             discards[k] = discards.get(k, 0) + n
         for k, n in r.get('extra', {}).items():
-            if isinstance(n, (int, float)):
+            if isinstance(n, (int, float)) and not k.startswith('const_'):
                 extra[k] = extra.get(k, 0) + n
             else:
                 extra.setdefault(k, n)
@@ -499,7 +499,9 @@ def run_property(prop, tier):
             gaps.append(c)
             print('COVERAGE-GAP: property=%s class=%s empty' % (prop, c))
     cov = dict(
-        evaluations=int(evaluations), distinct_nontrivial=len(nontrivial),
+        evaluations=int(evaluations),
+        distinct_nontrivial=len(nontrivial) + int(
+            extra.get('distinct_nontrivial_enumerated', 0)),
         rule=mod.RULE, samples=samples[:4], classes=classes,
         clause_evaluations=counts, discarded=discards,
         regression_cases_replayed=n_reg, shards=n_shards,
@@ -527,12 +529,13 @@ def run_property(prop, tier):
         pass
 
     print('%s %s: %d cases, %d distinct non-trivial, %d violation bucket(s),'
-          ' %d discarded, %.1fs' % (prop, tier, evaluations, len(nontrivial),
+          ' %d discarded, %.1fs' % (prop, tier, evaluations,
+                                    cov['distinct_nontrivial'],
                                     n_viol, n_disc, time.time() - t0))
     if rc == 0 and harness_error:
         print('HARNESS-ERROR: ' + harness_error)
         return 2
-    if rc == 0 and (evaluations < 1 or len(nontrivial) < 2):
+    if rc == 0 and (evaluations < 1 or cov['distinct_nontrivial'] < 2):
         print('HARNESS-ERROR: run produced no usable coverage')
         return 2
     return rc
